@@ -135,7 +135,7 @@ def make_hydro(it=None):
         for e in ENDS:
             fe.attrs[f"{e.lower()}PossibleTemperature"] = [real(f"T{e}{ph}T"), boolean(f"{e.lower()}IsGenuine{ph}")]
         th.attrs[f"freeEnergy{ph}"] = fe
-    tpl = SymObj("HydrodynamicsTemplateModel", "hydrodynamicsTemplateModel", label="template")
+    tpl = SymObj("HydrodynamicsTemplateModel", "hydrodynamicsTemplateModel", label="template", open_=True)
     for n in ("vJ", "vMin", "cb2", "cs2", "alN", "psiN"):
         tpl.attrs[n] = real(f"template.{n}")
     hy = SymObj("Hydrodynamics", "hydrodynamics", label="hydro")
